@@ -7,6 +7,9 @@ import ChemModel.Proofs.NumReal
 import Mathlib.Tactic.Linarith
 import Mathlib.Tactic.LinearCombination
 
+set_option linter.unusedSimpArgs false
+set_option linter.unusedTactic false
+
 namespace ChemModel.Integrated
 open ChemModel ChemModel.Gen
 
@@ -20,11 +23,61 @@ theorem hasDerivAt_exp_lin {g : ℝ → ℝ} (c t : ℝ) (hg : ∀ s, g s = c * 
     simpa using (hasDerivAt_id t).const_mul c
   exact h1.exp.congr_deriv (by ring)
 
+/-! ### normal forms
+
+Every proof below is about a hand-written NORMAL FORM of the closed form (`…NF`, `binaryRevWith`, `cstrWith`: explicit real
+expressions).  The generated function is tied to its normal form by an `…_eq_nf` lemma that is proved SEMANTICALLY: unfold the
+generated text (all `let`-bound temporaries disappear by zeta-reduction) and normalise both sides as commutative-ring expressions
+(`ring_nf`, which also normalises inside the arguments of `exp`, `√`, `tanh`, `artanh`, `^`).  A behaviour-preserving rewrite of the
+Python (a new temporary, a common sub-expression, re-associated or commuted products, `a - b` vs `-b + a`) therefore leaves every
+proof intact; an algebraic change makes `ring_nf` end in two different normal forms and the lemma fails. -/
+
+/-- closes `generated = normal form` after both sides have been unfolded -/
+macro "nf_close" : tactic => `(tactic| first | done | rfl | (ring_nf; done) | (ring_nf; rfl) | (field_simp; ring_nf; done))
+
+noncomputable def dimerizationNF (t kf c t0 : ℝ) : ℝ := 1 / (1 / c + 2 * kf * (t - t0))
+
+noncomputable def pseudoIrrevNF (t kf prod major minor : ℝ) : ℝ := prod + minor * (1 - Real.exp (-major * kf * t))
+
+noncomputable def pseudoRevNF (t kf kb prod major minor : ℝ) : ℝ :=
+  prod + (-kb * prod + kf * major * minor + (kb * prod - kf * major * minor) * Real.exp (-t * (kb + kf * major))) / (kb + kf * major)
+
+noncomputable def binaryIrrevNF (t kf prod major minor : ℝ) : ℝ :=
+  prod + major * (1 - Real.exp (-kf * (major - minor) * t)) / (major / minor - Real.exp (-kf * t * (major - minor)))
+
+noncomputable def unaryIrrevCstrNF (t k r p fr fp fv : ℝ) : ℝ × ℝ :=
+  (fr * fv * (1 / (fv + k)) + 1 / (fv + k) * (fv * r + k * r - fr * fv) * Real.exp (-t * (fv + k)),
+   -(1 / (fv + k)) * (fv * r + k * r - fr * fv) * Real.exp (-fv * t) * (-1 + Real.exp (-k * t))
+     + 1 / (fv + k) * Real.exp (-fv * t) * (-fp * fv - fp * k + fv * p + k * p - fr * k)
+     + 1 / (fv + k) * (fp * (fv + k) + fr * k))
+
+theorem dimerization_eq_nf (t kf c t0 : ℝ) : dimerizationIrrev t kf c t0 = dimerizationNF t kf c t0 := by
+  simp only [dimerizationIrrev, dimerizationNF, NumReal.npow_eq_pow, Nat.cast_one, Nat.cast_ofNat]
+  nf_close
+
+theorem pseudoIrrev_eq_nf (t kf prod major minor : ℝ) : pseudoIrrev t kf prod major minor = pseudoIrrevNF t kf prod major minor := by
+  simp only [pseudoIrrev, pseudoIrrevNF, NumReal.exp_def, NumReal.npow_eq_pow, Nat.cast_one, Nat.cast_ofNat]
+  nf_close
+
+theorem pseudoRev_eq_nf (t kf kb prod major minor : ℝ) :
+    pseudoRev t kf kb prod major minor = pseudoRevNF t kf kb prod major minor := by
+  simp only [pseudoRev, pseudoRevNF, NumReal.exp_def, NumReal.npow_eq_pow, Nat.cast_one, Nat.cast_ofNat]
+  nf_close
+
+theorem binaryIrrev_eq_nf (t kf prod major minor : ℝ) : binaryIrrev t kf prod major minor = binaryIrrevNF t kf prod major minor := by
+  simp only [binaryIrrev, binaryIrrevNF, NumReal.exp_def, NumReal.npow_eq_pow, Nat.cast_one, Nat.cast_ofNat]
+  nf_close
+
+theorem unaryIrrevCstr_eq_nf (t k r p fr fp fv : ℝ) : unaryIrrevCstr t k r p fr fp fv = unaryIrrevCstrNF t k r p fr fp fv := by
+  simp only [unaryIrrevCstr, unaryIrrevCstrNF, NumReal.exp_def, NumReal.npow_eq_pow, Nat.cast_one, Nat.cast_ofNat]
+  nf_close
+
 /-! ### dimerization_irrev -/
 
 theorem dimerization_hasDerivAt (t kf c t0 : ℝ) (hden : 1 / c + 2 * kf * (t - t0) ≠ 0) :
     HasDerivAt (fun s => dimerizationIrrev s kf c t0) (-2 * kf * (dimerizationIrrev t kf c t0) ^ 2) t := by
-  simp only [dimerizationIrrev, Nat.cast_one, Nat.cast_ofNat]
+  simp only [dimerization_eq_nf]
+  simp only [dimerizationNF]
   have h1 : HasDerivAt (fun s : ℝ => 1 / c + 2 * kf * (s - t0)) (2 * kf) t := by
     simpa using (((hasDerivAt_id t).sub_const t0).const_mul (2 * kf)).const_add (1 / c)
   have h2 := (hasDerivAt_const t (1 : ℝ)).div h1 hden
@@ -37,7 +90,8 @@ theorem dimerization_hasDerivAt (t kf c t0 : ℝ) (hden : 1 / c + 2 * kf * (t - 
 theorem pseudoIrrev_hasDerivAt (t kf prod major minor : ℝ) :
     HasDerivAt (fun s => pseudoIrrev s kf prod major minor)
       (kf * major * (minor - (pseudoIrrev t kf prod major minor - prod))) t := by
-  simp only [pseudoIrrev, NumReal.exp_def, Nat.cast_one]
+  simp only [pseudoIrrev_eq_nf]
+  simp only [pseudoIrrevNF]
   have hE := hasDerivAt_exp_lin (g := fun s => -major * kf * s) (-major * kf) t (fun s => by ring)
   exact (((hE.const_sub 1).const_mul minor).const_add prod).congr_deriv (by ring)
 
@@ -46,7 +100,8 @@ theorem pseudoIrrev_hasDerivAt (t kf prod major minor : ℝ) :
 theorem pseudoRev_hasDerivAt (t kf kb prod major minor : ℝ) (hl : kb + kf * major ≠ 0) :
     HasDerivAt (fun s => pseudoRev s kf kb prod major minor)
       (kf * major * (minor - (pseudoRev t kf kb prod major minor - prod)) - kb * pseudoRev t kf kb prod major minor) t := by
-  simp only [pseudoRev, NumReal.exp_def]
+  simp only [pseudoRev_eq_nf]
+  simp only [pseudoRevNF]
   have hE := hasDerivAt_exp_lin (g := fun s => -s * (kb + kf * major)) (-(kb + kf * major)) t (fun s => by ring)
   have h := (((hE.const_mul (kb * prod - kf * major * minor)).const_add (-kb * prod + kf * major * minor)).div_const
     (kb + kf * major)).const_add prod
@@ -60,7 +115,8 @@ theorem binaryIrrev_hasDerivAt (t kf prod major minor : ℝ) (hminor : minor ≠
     (hden : major / minor - Real.exp (-kf * t * (major - minor)) ≠ 0) :
     HasDerivAt (fun s => binaryIrrev s kf prod major minor)
       (kf * (major - (binaryIrrev t kf prod major minor - prod)) * (minor - (binaryIrrev t kf prod major minor - prod))) t := by
-  simp only [binaryIrrev, NumReal.exp_def, Nat.cast_one]
+  simp only [binaryIrrev_eq_nf]
+  simp only [binaryIrrevNF]
   have hE1 := hasDerivAt_exp_lin (g := fun s => -kf * (major - minor) * s) (-kf * (major - minor)) t (fun s => by ring)
   have hE2 := hasDerivAt_exp_lin (g := fun s => -kf * s * (major - minor)) (-kf * (major - minor)) t (fun s => by ring)
   have h := ((((hE1.const_sub 1).const_mul major).div (hE2.const_sub (major / minor)) hden)).const_add prod
@@ -102,7 +158,8 @@ theorem binaryIrrev_den_ne_minor_excess (t kf major minor : ℝ) (hkf : 0 < kf) 
 theorem unaryIrrevCstr_fst_hasDerivAt (t k r p fr fp fv : ℝ) (hk : fv + k ≠ 0) :
     HasDerivAt (fun s => (unaryIrrevCstr s k r p fr fp fv).1)
       (-k * (unaryIrrevCstr t k r p fr fp fv).1 + fv * (fr - (unaryIrrevCstr t k r p fr fp fv).1)) t := by
-  simp only [unaryIrrevCstr, NumReal.exp_def, Nat.cast_one]
+  simp only [unaryIrrevCstr_eq_nf]
+  simp only [unaryIrrevCstrNF]
   have hE := hasDerivAt_exp_lin (g := fun s => -s * (fv + k)) (-(fv + k)) t (fun s => by ring)
   have h := (hE.const_mul (1 / (fv + k) * (fv * r + k * r - fr * fv))).const_add (fr * fv * (1 / (fv + k)))
   refine h.congr_deriv ?_
@@ -112,7 +169,8 @@ theorem unaryIrrevCstr_fst_hasDerivAt (t k r p fr fp fv : ℝ) (hk : fv + k ≠ 
 theorem unaryIrrevCstr_snd_hasDerivAt (t k r p fr fp fv : ℝ) (hk : fv + k ≠ 0) :
     HasDerivAt (fun s => (unaryIrrevCstr s k r p fr fp fv).2)
       (k * (unaryIrrevCstr t k r p fr fp fv).1 + fv * (fp - (unaryIrrevCstr t k r p fr fp fv).2)) t := by
-  simp only [unaryIrrevCstr, NumReal.exp_def, Nat.cast_one]
+  simp only [unaryIrrevCstr_eq_nf]
+  simp only [unaryIrrevCstrNF]
   have hEv := hasDerivAt_exp_lin (g := fun s => -fv * s) (-fv) t (fun s => by ring)
   have hEk := hasDerivAt_exp_lin (g := fun s => -k * s) (-k) t (fun s => by ring)
   have h1 := (hEv.const_mul (-(1 / (fv + k)) * (fv * r + k * r - fr * fv))).mul (hEk.const_add (-1))
@@ -140,7 +198,8 @@ noncomputable def binaryRevWith (s t kf kb X Y Z : ℝ) : ℝ :=
 
 theorem binaryRev_eq_with (t kf kb X Y Z : ℝ) :
     binaryRev t kf kb X Y Z = binaryRevWith (Real.sqrt (binaryRevDisc kf kb X Y Z)) t kf kb X Y Z := by
-  simp only [binaryRev, binaryRevWith, binaryRevDisc, NumReal.exp_def, NumReal.sqrt_def, NumReal.npow_eq_pow, Nat.cast_ofNat]
+  simp only [binaryRev, binaryRevWith, binaryRevDisc, NumReal.exp_def, NumReal.sqrt_def, NumReal.npow_eq_pow, Nat.cast_ofNat, Nat.cast_one]
+  nf_close
 
 set_option maxRecDepth 20000 in
 theorem binaryRevWith_hasDerivAt (t kf kb X Y Z s : ℝ) (hkf : kf ≠ 0)
@@ -218,6 +277,7 @@ theorem binaryIrrevCstr_eq_with (t k r p fr fp fv n : ℝ) :
       = cstrWith (Real.artanh (cstrArg k r fr fv)) (√fv) (√(fv + fr * (8 * k))) t k r p fr fp fv n := by
   simp only [binaryIrrevCstr, cstrWith, cstrArg, NumReal.exp_def, NumReal.sqrt_def, NumReal.tanh_def, NumReal.atanh_def,
     NumReal.rpow_def, NumReal.npow_eq_pow, Nat.cast_ofNat, Nat.cast_one]
+  nf_close
 
 theorem cstrWith_fst_hasDerivAt (c a b t k r p fr fp fv n : ℝ) (hk : k ≠ 0) (ha : a ^ 2 = fv) (hb : b ^ 2 = fv + fr * (8 * k)) :
     HasDerivAt (fun s => (cstrWith c a b s k r p fr fp fv n).1)
